@@ -106,7 +106,7 @@ def WFTriple {J : Type} (L : Lib J) (t : Triple J) : Prop :=
 raised SECoP errors carry a class name of errors.py, what it sends itself are event lines -/
 def DispFits {J σ : Type} (T : Tables) (L : Lib J) (d : Disp σ J) : Prop :=
   ∀ st t,
-    (∀ m ∈ (d st t).1.async, WFTriple L m ∧ (m.action = T.eventReply ∨ m.action = T.logEvent)) ∧
+    (∀ m ∈ (d st t).1.async, WFTriple L m ∧ m.action ∈ T.asyncActions) ∧
     match (d st t).1.res with
     | .ok r => WFTriple L r ∧ FitsOk T ⟨t.action, t.spec.getD []⟩ r.action (r.spec.getD [])
     | .secop cls => cls ∈ T.errorClasses
@@ -126,13 +126,17 @@ def classOf (data : Bytes) : Option Bytes :=
   | 91 :: 34 :: r => if r.contains 34 then some (r.takeWhile (· != 34)) else none
   | _ => none
 
-/-- is this emitted line a reply (not a help text line, not an event)? -/
-def isReplyAction (T : Tables) (a : Bytes) : Bool :=
-  !(a == T.helpLineAction || a == T.eventReply || a == T.logEvent)
-
 /-- the fields of an emitted line: the line without its terminator, cut at the first two blanks
 (no stripping: white space that ends an echoed field is part of the echo) -/
 def outParts (o : Bytes) : Parts := parts o.dropLast
+
+/-- may this emitted line be something else than a reply: a help text line, an event (`update`,
+`log`), or an error event (`error_update`, the snapshot/update of a parameter in error state)?
+The list is generated from the source (`Generated.C07.asyncActions`). -/
+def isAsyncAction (T : Tables) (a : Bytes) : Bool := T.asyncActions.contains a
+
+/-- is this action certainly a reply action? -/
+def isReplyAction (T : Tables) (a : Bytes) : Bool := !isAsyncAction T a
 
 def fitsLineB (T : Tables) (reqLine outLine : Bytes) : Bool :=
   let req := reqOf T reqLine
@@ -142,11 +146,17 @@ def fitsLineB (T : Tables) (reqLine outLine : Bytes) : Bool :=
       | some c => fitsErrB T req p.action p.spec c
       | none => false)
 
-/-- first index at which two lists, compared pairwise, fail `f` -/
-def firstBad {α β : Type} (f : α → β → Bool) : Nat → List α → List β → Option Nat
-  | _, [], _ => none
-  | _, _, [] => none
-  | i, a :: as, b :: bs => if f a b then firstBad f (i + 1) as bs else some i
+/-- walk through the emitted lines with the request lines still to be answered: the first line
+that fits the oldest unanswered request is its reply; other lines must be help text or events.
+`some (k, true)`: line found that is neither; `some (k, false)`: requests `k…` unanswered at the end. -/
+def scan (T : Tables) : Nat → List Bytes → List Bytes → Option (Nat × Bool)
+  | _, [], [] => none
+  | k, [], o :: os => if isAsyncAction T (outParts o).action then scan T k [] os else some (k, true)
+  | k, _ :: _, [] => some (k, false)
+  | k, r :: rs, o :: os =>
+    if fitsLineB T r o then scan T (k + 1) rs os
+    else if isAsyncAction T (outParts o).action then scan T k (r :: rs) os
+    else some (k, true)
 
 inductive Verdict where
   | ok
@@ -168,11 +178,20 @@ def judge (T : Tables) (stream : Bytes) (outs : List Bytes) : Verdict :=
   | some i => .split i
   | none =>
     let reqs := (splitLines stream).lines
-    let reps := outs.filter (fun o => isReplyAction T (outParts o).action)
-    if reqs.length ≠ reps.length then .count reqs.length reps.length
-    else match firstBad (fitsLineB T) 0 reqs reps with
-      | some k => .misfit k
-      | none => .ok
+    match scan T 0 reqs outs with
+    | none => .ok
+    | some (k, true) => if k < reqs.length then .misfit k else .count reqs.length (k + 1)
+    | some (k, false) => .count reqs.length k
+
+/-- the module part of a specifier `module[:accessible]` -/
+def moduleOf (spec : Bytes) : Bytes := spec.takeWhile (· != 58)
+
+/-- nothing of another connection's traffic: every event line (`update`, `error_update`, `log`) a
+connection received concerns a module it subscribed to.  `none` = fine, `some i` = offending line. -/
+def judgeEvents (T : Tables) (subscribed : List Bytes) (outs : List Bytes) : Option Nat :=
+  outs.findIdx? (fun o =>
+    let p := outParts o
+    isAsyncAction T p.action && p.action != T.helpLineAction && !(subscribed.contains (moduleOf p.spec)))
 
 /-- `judge`, then the two implementation-side tests: per emitted line (valid UTF-8, data part strict JSON) -/
 def judgeAll (T : Tables) (stream : Bytes) (outs : List Bytes) (flags : List (Bool × Bool)) : Verdict :=
